@@ -18,14 +18,26 @@ MaxLen == IF "LOGF_LEN" \in DOMAIN IOEnv THEN (IF IOEnv.LOGF_LEN = "5" THEN 5 EL
 
 \* names: scalar names are strings, array names tuples of strings
 \* (TLC cannot compare a string with a tuple: every name is a record [arr, n]; a scalar name has one component)
-Scalars == {[arr |-> FALSE, n |-> <<x>>] : x \in {"a", "ab", "b", "c"}}
-Tuples  == {[arr |-> TRUE, n |-> <<"a", "c">>], [arr |-> TRUE, n |-> <<"bc", "b">>]}
+\* comps: the component of the field's value that stands in each column (1..k for an ordinary array field)
+Scalars == {[arr |-> FALSE, stress |-> FALSE, n |-> <<x>>, comps |-> <<1>>] : x \in {"a", "ab", "b", "c"}}
+Tuples  == {[arr |-> TRUE, stress |-> FALSE, n |-> <<"a", "c">>, comps |-> <<1, 2>>], [arr |-> TRUE, stress |-> FALSE, n |-> <<"bc", "b">>, comps |-> <<1, 2>>]}
 Names   == Scalars \cup Tuples
 Patterns == {"a", "b", "c"}
 
+\* add_stress_fields(atoms, mask): one array field whose columns are the Voigt components xx yy zz yz xz xy the mask
+\* keeps, in that order, each named after its component; the value in a column is THAT component (not the k-th one)
+Voigt == <<"Stress[xx][GPa]", "Stress[yy][GPa]", "Stress[zz][GPa]", "Stress[yz][GPa]", "Stress[xz][GPa]", "Stress[xy][GPa]">>
+RECURSIVE Kept(_, _)
+Kept(mask, j) == IF j > 6 THEN <<>> ELSE (IF j \in mask THEN <<j>> ELSE <<>>) \o Kept(mask, j + 1)
+StressKey(mask) == LET k == Kept(mask, 1) IN [arr |-> TRUE, stress |-> TRUE, n |-> [i \in 1..Len(k) |-> Voigt[k[i]]], comps |-> k]
+AllMasks == SUBSET (1..6)
+FewMasks == {1..6, {}, {4, 6}}
+
 \* "pattern in name" for the strings above (substring = letter membership for these one/two-letter names)
 NameHas(name, p) == CASE name = "a" -> p = "a" [] name = "b" -> p = "b" [] name = "c" -> p = "c"
-                       [] name = "ab" -> p \in {"a", "b"} [] name = "bc" -> p \in {"b", "c"} [] OTHER -> FALSE
+                       [] name = "ab" -> p \in {"a", "b"} [] name = "bc" -> p \in {"b", "c"}
+                       [] name \in {Voigt[j] : j \in 1..6} -> p = "a"          \* "Stress[..][GPa]" contains an "a", no "b", no "c"
+                       [] OTHER -> FALSE
 Matches(k, p) == \E i \in 1..Len(k.n) : NameHas(k.n[i], p)
 
 \* a field is [key, ver]: ver counts how often the key has been (re)defined, so that a replaced field is told
@@ -45,20 +57,28 @@ AddField(k) == /\ defs' = defs + 1
 RemoveFields(p) == /\ fields' = SelectSeq(fields, LAMBDA f : ~Matches(f.key, p))
                    /\ hist' = Append(hist, <<"remove", p>>) /\ UNCHANGED defs
 
-Next == /\ Len(hist) < MaxLen
+\* (a history that starts with one of the 61 other masks is followed for one more call only: bounds the model)
+RareStart == hist # <<>> /\ hist[1][1] = "add" /\ hist[1][2].stress /\ hist[1][2] \notin {StressKey(m) : m \in FewMasks}
+Next == /\ Len(hist) < (IF RareStart THEN 2 ELSE MaxLen)
         /\ \/ \E k \in Names : AddField(k)
+           \/ \E m \in (IF hist = <<>> THEN AllMasks ELSE FewMasks) : AddField(StressKey(m))    \* every mask as a first call, a few later
            \/ \E p \in Patterns : RemoveFields(p)
 Spec == Init /\ [][Next]_vars
 
 \* columns of the header / of a row: one per scalar field, one per component of an array field
 RECURSIVE Columns(_)
 Columns(fs) == IF Len(fs) = 0 THEN <<>>
-               ELSE [i \in 1..Len(Head(fs).key.n) |-> [name |-> Head(fs).key.n[i], ver |-> Head(fs).ver, comp |-> i]] \o Columns(Tail(fs))
+               ELSE [i \in 1..Len(Head(fs).key.n) |-> [name |-> Head(fs).key.n[i], ver |-> Head(fs).ver, comp |-> Head(fs).key.comps[i]]] \o Columns(Tail(fs))
 
 LOG_KeysUnique == \A i, j \in 1..Len(fields) : i # j => fields[i].key # fields[j].key
 LOG_RemovedAreGone == (Len(hist) > 0 /\ hist[Len(hist)][1] = "remove") => \A i \in 1..Len(fields) : ~Matches(fields[i].key, hist[Len(hist)][2])
+AllKeys == Names \cup {StressKey(m) : m \in AllMasks}
+\* a stress column is named after the component it holds, and the kept components come in Voigt order
+LOG_StressColumns == \A i \in 1..Len(fields) : fields[i].key.stress =>
+    LET k == fields[i].key IN /\ \A c \in 1..Len(k.n) : k.n[c] = Voigt[k.comps[c]]
+                              /\ \A c, d \in 1..Len(k.comps) : c < d => k.comps[c] < k.comps[d]
 LOG_ReplaceKeepsPosition ==
-    [][\A k \in Names : (hist' # hist /\ hist'[Len(hist')] = <<"add", k>> /\ IndexOf(k) # 0) =>
+    [][\A k \in AllKeys : (hist' # hist /\ hist'[Len(hist')] = <<"add", k>> /\ IndexOf(k) # 0) =>
             /\ Len(fields') = Len(fields) /\ \A i \in 1..Len(fields) : fields'[i].key = fields[i].key]_vars
 
 (* ---- export: every reachable configuration history with its expected columns ----------------------- *)
